@@ -58,6 +58,15 @@ def make_cases(rng, tier, maxl):
         sb = {"l": 0, "c": list(P), "e": [ex * rng.uniform(0.8, 1.2)], "d": [1.0]}
         u = {"c": C, "p": [{"n": 2, "l": 0, "a": rng.loguniform(300.0, 2000.0), "d": rng.uniform(1.0, 5.0)}]}
         cases.append({"id": "t%d_000_tightlocal" % len(cases), "extra": {"geom": "A=B=C" if k % 2 == 0 else "A=B", "stratum": "t"}, "shells": [sa, sb], "ecps": [u]})
+    # a purely local potential labelled with the build's HIGHEST angular momentum: the semi-local channels are empty and the local part sits
+    # at l = MAX_L, i.e. in the last l_starts range of the ECP object (cheap for the oracle: no projector)
+    for k in range(3 if tier == "quick" else 12):
+        A, B, C = gen.geometry(rng, "distinct")
+        sa = gen.rand_shell(rng, rng.randint(0, 1), A, nprim=1, emin=0.3, emax=2.0)
+        sb = gen.rand_shell(rng, rng.randint(0, 1), B, nprim=1, emin=0.3, emax=2.0)
+        u = {"c": C, "p": [{"n": 2, "l": maxl, "a": rng.uniform(0.4, 2.0), "d": rng.uniform(1.0, 4.0)},
+                           {"n": rng.choice([0, 1, 2]), "l": maxl, "a": rng.uniform(0.3, 1.5), "d": -rng.uniform(0.5, 2.0)}]}
+        cases.append({"id": "L%d_%d%d%d_toplocal" % (len(cases), sa["l"], sb["l"], maxl), "extra": {"geom": "distinct", "stratum": "L"}, "shells": [sa, sb], "ecps": [u]})
     return cases
 
 
